@@ -58,6 +58,10 @@ CLAIMED = {
          "Props/C11.v: C11_scan, C11_box_contents, C11_minmax (recipe is a parameter). Chef(...).cook() is run with generated user recipes (.py files: 1-3 components, arithmetic and position-dependent) x kept-field strings x serial / controlled pool on generated 3D plotfiles with scattered non-monotone layouts; the independent reader checks names (kept then new), kept bit-identical, new = recipe(box) bit for bit, min/max = extrema of the written data, taste with box coordinates; the extracted model (recipe = table of the Python recipe's per-box results) is compared byte for byte.",
          "partial: mapping of per-file results to box order and header text by correspondence only; Cantera-backed built-in recipes (HRR/ENT/SRi/SDi/RRi) are not exercised by the quick tier and their values are Cantera's (oracle); one defect repaired (field names), see KNOWN_FINDINGS.txt.",
          "DESIGN.md section 3 C11"),
+ 'C17': ("Coq proof (ghost stripping keeps exactly the interior cells for every ghost width; recorded min/max are true extrema) + byte-for-byte correspondence of the converted level directories + independent reader / taste with box coordinates",
+         "Props/C17.v: C17_interior, C17_minmax. The executable model Writers.Chk2plt.convert_level (state-file scan, ghost stripping, flooring table, gradp / I_R at recorded offsets, offset-sorted tasks mapped back to box order) is compared byte for byte with chk2plt's output on synthetic checkpoints (1-3 levels, 1-3 ghost cells, anisotropic shifted domains, independent layouts per data subset, all flag combinations, species from list or reference plotfile); the independent reader checks fields, levels, boxes, time, geometry, interior values, rescaled mass fractions, min/max; taste with box coordinates; the checkpoint tree is hashed before and after.",
+         "partial: the checkpoint Header parse, dx = domain / grid, box bounds and the text writers are checked at property level only (not modelled); flooring division is numpy's (table); two defects repaired by fix: commits, see KNOWN_FINDINGS.txt.",
+         "DESIGN.md section 3 C17"),
 }
 PENDING_REASON = "check not built yet in this round (model and theorems planned in DESIGN.md section 3); not claimed until its check runs"
 
